@@ -430,15 +430,15 @@ harnesses! {
     // @bounds boxed; is_ready;poll(w1);(send|drop sender);poll(w1); depth 1
     fn c07_boxed_ready_poll_complete_poll [unwind 4] { with_boxed(1, boxed::shape_ready_poll_complete_poll) }
 
-    // @verif id=C07 tier=thorough timeout=1800 mem=24 expect=pass
+    // @verif id=C07 tier=thorough timeout=7200 mem=24 expect=pass
     // @bounds boxed; poll(w1);poll(w2);poll(w1);drop receiver;(send|drop sender); depth 1
     fn c07_boxed_triple_poll_abandon [unwind 4] { with_boxed(1, boxed::shape_triple_poll_abandon) }
 
-    // @verif id=C07 tier=thorough timeout=1800 mem=24 expect=pass
+    // @verif id=C07 tier=thorough timeout=7200 mem=24 expect=pass
     // @bounds boxed; poll(w1);(send|drop sender); nesting depth 2
     fn c07_boxed_poll_complete_depth2 [unwind 4] { with_boxed(2, boxed::shape_poll_complete) }
 
-    // @verif id=C07 tier=thorough timeout=1800 mem=24 expect=pass
+    // @verif id=C07 tier=thorough timeout=7200 mem=24 expect=pass
     // @bounds boxed; poll(w1);poll(w2);(send|drop sender); nesting depth 2
     fn c07_boxed_repoll_complete_depth2 [unwind 4] { with_boxed(2, boxed::shape_repoll_complete) }
 
@@ -450,19 +450,19 @@ harnesses! {
     // @bounds embedded; poll(w1);poll(w2);(send|drop sender); depth 1
     fn c07_embedded_repoll_complete [unwind 4] { with_embedded(1, embedded::shape_repoll_complete) }
 
-    // @verif id=C07 tier=thorough timeout=1800 mem=24 expect=pass
+    // @verif id=C07 tier=thorough timeout=7200 mem=24 expect=pass
     // @bounds embedded; poll(w1);(drop receiver|into_value);(send|drop sender); depth 1
     fn c07_embedded_poll_abandon_complete [unwind 4] { with_embedded(1, embedded::shape_poll_abandon_complete) }
 
-    // @verif id=C07 tier=thorough timeout=1800 mem=24 expect=pass
+    // @verif id=C07 tier=thorough timeout=7200 mem=24 expect=pass
     // @bounds embedded; (send|drop sender);(poll|into_value|is_ready,poll); depth 1
     fn c07_embedded_complete_then_receive [unwind 4] { with_embedded(1, embedded::shape_complete_then_receive) }
 
-    // @verif id=C07 tier=thorough timeout=1800 mem=24 expect=pass
+    // @verif id=C07 tier=thorough timeout=7200 mem=24 expect=pass
     // @bounds pooled (LocalEventPool) storage; poll(w1);(send|drop sender); depth 1; pool.len()==0 at the end
     fn c07_pooled_poll_complete [unwind 4] { with_pooled(1, pooled::shape_poll_complete) }
 
-    // @verif id=C07 tier=thorough timeout=1800 mem=24 expect=pass
+    // @verif id=C07 tier=thorough timeout=7200 mem=24 expect=pass
     // @bounds pooled; (send|drop sender);(poll|into_value|is_ready,poll); depth 1
     fn c07_pooled_complete_then_receive [unwind 4] { with_pooled(1, pooled::shape_complete_then_receive) }
 
